@@ -478,9 +478,21 @@ struct Late {
     sink: Arc<Mutex<Vec<(u64, Vec<Rec>)>>>,
 }
 
-fn read_results(h: &PredictionBatchResult, n: usize) -> Vec<(u64, Vec<Rec>)> {
+/// `poll`: the consumer polls `ready()` (yielding in between) before every `get()`
+fn read_results(h: &PredictionBatchResult, n: usize, poll: bool) -> Vec<(u64, Vec<Rec>)> {
     let mut v = vec![];
     for _ in 0..n {
+        if poll {
+            rt::probe::hit("consumer_polls_ready");
+            let mut spins = 0u32;
+            while !h.ready() {
+                rt::thread::yield_now();
+                spins += 1;
+                if spins == 1 {
+                    rt::probe::hit("consumer_poll_found_not_ready");
+                }
+            }
+        }
         let (scene, recs) = h.get();
         v.push((scene, recs.iter().map(rec).collect()));
     }
@@ -533,7 +545,7 @@ pub fn run_tracker(case: &TrackerCase, opts: &DriveOpts) -> History {
                     } else {
                         let h = t.submit(&[(*scene, dets.clone())]);
                         let n = h.batch_size();
-                        Res::Scenes(read_results(&h, n))
+                        Res::Scenes(read_results(&h, n, i % 3 == 2))
                     }
                 } else {
                     Res::Scenes(vec![(*scene, t.predict_simple(*scene, dets, i % 2 == 1))])
@@ -544,12 +556,12 @@ pub fn run_tracker(case: &TrackerCase, opts: &DriveOpts) -> History {
                     let h = t.submit(scenes);
                     let n = h.batch_size();
                     match consumer {
-                        Consumer::Same => Res::Scenes(read_results(&h, n)),
+                        Consumer::Same => Res::Scenes(read_results(&h, n, i % 3 == 2)),
                         Consumer::Other => {
                             let sink = Arc::new(Mutex::new(vec![]));
                             let s2 = sink.clone();
                             let jh = rt::thread::spawn(move || {
-                                let v = read_results(&h, n);
+                                let v = read_results(&h, n, i % 3 == 2);
                                 *s2.lock().unwrap() = v;
                             });
                             jh.join().unwrap();
@@ -561,7 +573,7 @@ pub fn run_tracker(case: &TrackerCase, opts: &DriveOpts) -> History {
                             let sink = Arc::new(Mutex::new(vec![]));
                             let s2 = sink.clone();
                             let jh = rt::thread::spawn(move || {
-                                let v = read_results(&h, n);
+                                let v = read_results(&h, n, i % 3 == 2);
                                 *s2.lock().unwrap() = v;
                             });
                             late.push(Late { op_index: i, handle: jh, sink });
@@ -570,7 +582,7 @@ pub fn run_tracker(case: &TrackerCase, opts: &DriveOpts) -> History {
                         }
                         Consumer::DropAfter(k) => {
                             let k = (*k).min(n);
-                            let got = read_results(&h, k);
+                            let got = read_results(&h, k, i % 3 == 2);
                             drop(h);
                             if k < n {
                                 dangling = true;
